@@ -29,6 +29,7 @@ type c10Body struct {
 	Body    string
 	Vouches bool   // a complete answer that vouches for an email (verified where the provider requires)
 	Email   string // the vouched email if it is not c10Email
+	Chunked bool   // sent with chunked transfer encoding (no Content-Length)
 	Cut     int    // > 0: the whole length is announced but only this many bytes arrive before the connection closes
 }
 
@@ -64,6 +65,9 @@ func c10Trailing(complete c10Body) []c10Body {
 		{Name: "complete-then-trailing-text", Body: complete.Body + "\n<html><body>502 Bad Gateway</body></html>"},
 		{Name: "complete-then-second-object", Body: complete.Body + `{"email":"not.vouched@evil.test","email_verified":true}`},
 		{Name: "complete-but-announced-longer", Body: complete.Body + strings.Repeat(" ", 64), Cut: len(complete.Body)},
+		// the complete answer, delivered without an announced length (what a gateway in front of the provider does)
+		{Name: "complete-chunked", Body: complete.Body, Chunked: true, Vouches: complete.Vouches, Email: complete.Email},
+		{Name: "truncated-json-chunked", Body: complete.Body[:len(complete.Body)/2], Chunked: true},
 	}
 }
 
@@ -83,8 +87,16 @@ func c10TokenBodiesBase(provider string) []c10Body {
 	tok := func(id string) string {
 		return `{"access_token":"idp-access-token","refresh_token":"idp-refresh-token","expires_in":3600,"id_token":"` + id + `"}`
 	}
+	// the same complete answer with other token lifetimes (absent, zero, negative, a few seconds)
+	lifetimes := func(complete string) []c10Body {
+		var out []c10Body
+		for _, l := range []struct{ n, v string }{{"absent", ""}, {"zero", `"expires_in":0,`}, {"negative", `"expires_in":-1,`}, {"seven-seconds", `"expires_in":7,`}, {"a-string", `"expires_in":"3600",`}} {
+			out = append(out, c10Body{Name: "complete-token-lifetime-" + l.n, Body: strings.Replace(complete, `"expires_in":3600,`, l.v, 1), Vouches: l.n != "a-string"})
+		}
+		return out
+	}
 	if provider == "google" {
-		return []c10Body{
+		return append([]c10Body{
 			{Name: "complete", Body: tok(claims(good)), Vouches: true, Email: ""},
 			{Name: "no-id-token", Body: `{"access_token":"a","refresh_token":"r","expires_in":3600}`, Vouches: false, Email: ""},
 			{Name: "id-token-0-segments", Body: tok(""), Vouches: false, Email: ""},
@@ -108,19 +120,19 @@ func c10TokenBodiesBase(provider string) []c10Body {
 			{Name: "html", Body: `<html><body>Service Unavailable</body></html>`, Vouches: false, Email: ""},
 			{Name: "json-array", Body: `[]`, Vouches: false, Email: ""},
 			{Name: "json-null", Body: `null`, Vouches: false, Email: ""},
-		}
+		}, lifetimes(tok(claims(good)))...)
 	}
 	// Okta and Cognito take the email from the userinfo call; the id_token they also receive names
 	// ANOTHER, unverified address, which must never end up in a session
 	other := claims(`{"email":"not.vouched@evil.test","email_verified":false}`)
-	return []c10Body{
+	return append([]c10Body{
 		{Name: "complete", Body: tok(other), Vouches: true, Email: ""},
 		{Name: "no-access-token", Body: `{"refresh_token":"r","expires_in":3600}`, Vouches: false, Email: ""},
 		{Name: "truncated-json", Body: `{"access_token":"idp-acc`, Vouches: false, Email: ""},
 		{Name: "empty-body", Body: ``, Vouches: false, Email: ""},
 		{Name: "html", Body: `<html><body>Bad Gateway</body></html>`, Vouches: false, Email: ""},
 		{Name: "json-null", Body: `null`, Vouches: false, Email: ""},
-	}
+	}, lifetimes(tok(other))...)
 }
 
 func c10UserinfoBodies(provider string, thorough bool) []c10Body {
@@ -238,7 +250,7 @@ func c10Run(c *fw.Ctx) {
 			switch cl.Endpoint {
 			case "token":
 				a = ans(tStatus, tBody.Body)
-				a.Cut = tBody.Cut
+				a.Cut, a.Chunked = tBody.Cut, tBody.Chunked
 				if tReset {
 					a = harness.AuthAnswer{Reset: true}
 				}
@@ -252,7 +264,7 @@ func c10Run(c *fw.Ctx) {
 					uReset = x.Choose("userinfo-reset", 2) == 1
 				}
 				a = ans(uStatus, uBody.Body)
-				a.Cut = uBody.Cut
+				a.Cut, a.Chunked = uBody.Cut, uBody.Chunked
 				if uReset {
 					a = harness.AuthAnswer{Reset: true}
 				}
